@@ -9,7 +9,7 @@ macro_rules! t {
 macro_rules! err { ($e: expr) => ({ return Err($e); }) }
 macro_rules! bail { ($($t:tt)*) => { err!(PdfError::Other) } }
 macro_rules! other { ($($t:tt)*) => (PdfError::Other) }
-macro_rules! warn { ($($t:tt)*) => {} }
-macro_rules! info { ($($t:tt)*) => {} }
-macro_rules! debug { ($($t:tt)*) => {} }
-macro_rules! trace { ($($t:tt)*) => {} }
+macro_rules! warn { ($($t:tt)*) => { () } }
+macro_rules! info { ($($t:tt)*) => { () } }
+macro_rules! debug { ($($t:tt)*) => { () } }
+macro_rules! trace { ($($t:tt)*) => { () } }
